@@ -352,6 +352,33 @@ func verifStep(ref nodeRef, max bool) nodeRef {
 	return nodeRef{}
 }
 
+// AddInnerWithLeaf is AddInner whose inner child carries one dummy leaf with
+// the child's own id, so that a walk through the child ends in a leaf that
+// names it (see Extreme).
+func (b *VerifBareNode) AddInnerWithLeaf(c byte, id uint32, prefixLen uint32, prefix [maxPrefixLen]byte) {
+	n4 := new(node4)
+	n4.prefixLen = prefixLen
+	n4.prefix = prefix
+	d := &verifDummy{id: id}
+	b.ids[unsafe.Pointer(d)] = id
+	(&nodeRef{pointer: unsafe.Pointer(n4), tag: nodeKind4}).addChild(0, nodeRef{pointer: unsafe.Pointer(d), tag: nodeKindLeaf})
+	b.ids[unsafe.Pointer(n4)] = id
+	b.ref.addChild(c, nodeRef{pointer: unsafe.Pointer(n4), tag: nodeKind4})
+}
+
+// Extreme follows the real minimum()/maximum() from this node (First/Last
+// above walk a copy of that code).
+func (b *VerifBareNode) Extreme(max bool) (uint32, bool) {
+	var p unsafe.Pointer
+	if max {
+		p = maximum[struct{}](b.ref)
+	} else {
+		p = minimum[struct{}](b.ref)
+	}
+	id, ok := b.ids[p]
+	return id, ok
+}
+
 func VerifSearchNode4(keys uint32, c byte) int    { return searchNode4(keys, c) }
 func VerifInsertPosNode4(keys uint32, c byte) int { return insertPosNode4(keys, c) }
 func VerifGetAtPos(keys uint32, pos int) byte     { return getAtPos(keys, pos) }
